@@ -193,7 +193,10 @@ def startCase (s : St) : St := Id.run do
   let prog := cs.toProg net.toNet
   let pins0 := c.pinW.map Val.undef
   -- the theorems of Properties/C04.lean are stated for well-formed programs: check the premise on every generated case
-  if !wfb prog then s := s.diff "generated program violates WF (premise of the C04 theorems)"
+  if !wfb prog then
+    -- e.g. a clock frequency of 0 (an implementation answer that contradicts the requested configuration, reported above): the event loop
+    -- of the model would not advance time; the case is reported and not simulated
+    return (s.diff "generated program violates WF (premise of the C04 theorems); case not simulated")
   let sim := powerOn prog ProcSem.none fuel pins0 ()
   let mut h := s.hist
   for cl in c.clocks do
